@@ -93,6 +93,17 @@ var int64Corners = []int64{math.MinInt64, 0, -1, 1, 42, math.MaxInt64}
 var uint64Corners = []uint64{math.MaxUint64, 0, 1, 1 << 63}
 var f64Corners = []float64{-1.5, 0, math.Copysign(0, -1), 1, 1e21, 1e-7, 5e-324, math.MaxFloat64, 123456789.125}
 var f32Corners = []float64{3.14, 0, 1, -2.5, float64(math.MaxFloat32), float64(math.SmallestNonzeroFloat32)}
+
+// floatTable: the values around which number formatting changes form or an
+// integer fast path would change behaviour: whole numbers at the edges of the
+// int32/int64/uint64 and 2^53 ranges, the exponent-form thresholds (1e21,
+// 1e-7), the extremes. H15_Floats renders each of them in every position.
+var floatTable = []float64{
+	1500000, -1500000, 0.1, -0.1, 1 << 24, 1<<24 + 1, 1 << 31, 1<<31 - 1, -(1 << 31), 1 << 32, 1 << 52, 1 << 53, 1<<53 + 2,
+	1 << 62, 1 << 63, -(1 << 63), 1<<63 - 1024, 1<<63 + 2048, 1 << 64, 1<<64 - 2048, 1e15, 1e16, 1e17, 1e20, 999999999999999868928, 1e21, -1e21, 1e22,
+	1e-6, 1e-7, 9.9e-7, 1e100, 1e300, -1e300, math.MaxFloat64, -math.MaxFloat64, 5e-324, 2.2250738585072014e-308,
+	float64(math.MaxFloat32), float64(math.SmallestNonzeroFloat32), 16777216, 16777217, 3.4028235e38, 1e38, 1e-38, 0.30000001192092896,
+}
 var timeCorners = []time.Time{time.Unix(1700000000, 123456789).UTC(), time.Unix(0, 0).UTC(), {}}
 
 func strLen() int {
@@ -348,7 +359,7 @@ func (p *jparser) lit(s string, k int) bool {
 }
 
 func (p *jparser) value(depth int) bool {
-	if depth > 8 {
+	if depth > 200 {
 		return false
 	}
 	p.ws()
@@ -751,4 +762,104 @@ func H15_ResetOffsets() {
 	vrt.Assert("after Reset the output equals a new outputter's", vrt.BytesEq(got, fresh.Done()))
 	_, ok := jsonParse(got)
 	vrt.Assert("and is valid JSON", ok)
+}
+
+// H15_Floats: every value of floatTable as a float64 and (rounded) as a
+// float32, at top level, as an array element after another element and as a
+// member value: the text parses back to exactly the same number. The values
+// are concrete (enumerated): number formatting is std-lib code that the
+// engine executes on constants only.
+func H15_Floats() {
+	v := floatTable[vrt.Choice("value", len(floatTable))]
+	k := cF64
+	want := v
+	if vrt.Choice("width", 2) == 1 {
+		k = cF32
+		want = float64(float32(v))
+		if math.IsInf(want, 0) {
+			vrt.Assume(false)
+		}
+	}
+	num := jtok{tNumber, "f64:" + strconv.FormatUint(math.Float64bits(want), 16)}
+	var calls []call
+	var exp []jtok
+	switch vrt.Choice("position", 3) {
+	case 0:
+		calls = []call{{K: k, F: v}}
+		exp = []jtok{num}
+	case 1:
+		calls = []call{{K: cStartArr}, {K: cInt, I: 1}, {K: k, F: v}, {K: k, F: v}, {K: cEndArr}}
+		exp = []jtok{{K: tStartArr}, {tNumber, "1"}, num, num, {K: tEndArr}}
+	default:
+		calls = []call{{K: cStartObj}, {K: cName, S: "a"}, {K: k, F: v}, {K: cName, S: "b"}, {K: cBool, B: true}, {K: cEndObj}}
+		exp = []jtok{{K: tStartObj}, {tName, "a"}, num, {tName, "b"}, {K: tTrue}, {K: tEndObj}}
+	}
+	var out plenccodec.JSONOutput
+	play(&out, calls)
+	data := out.Done()
+	vrt.ObserveBytes("json", data)
+	toks, ok := jsonParse(data)
+	vrt.Assert("output is one valid JSON document", ok)
+	if ok {
+		vrt.Assert("number parses back to the same value", sameTokens(exp, toks))
+	}
+}
+
+var deepDepths = []int{16, 17, 32, 33, 64, 65}
+
+// H15_Deep: nesting far beyond what the call-tree harnesses reach, around the
+// depths where a fixed-size or packed state stack would run out (16, 32, 64
+// levels): D containers inside each other - all arrays, all objects, or
+// alternating - the outermost being an object or array that continues with
+// further members / elements after the deep value, and the same one level
+// further in.
+func H15_Deep() {
+	D := deepDepths[vrt.Choice("depth", len(deepDepths))]
+	pattern := vrt.Choice("pattern", 3)
+	outer := vrt.Choice("outer", 2) // outermost container: 0 object, 1 array
+	name := "n\""
+	var calls []call
+	var exp []jtok
+	isObj := func(level int) bool {
+		if level == 0 {
+			return outer == 0
+		}
+		switch pattern {
+		case 0:
+			return false
+		case 1:
+			return true
+		}
+		return level%2 == 1
+	}
+	for l := 0; l < D; l++ {
+		if isObj(l) {
+			calls = append(calls, call{K: cStartObj}, call{K: cName, S: name})
+			exp = append(exp, jtok{K: tStartObj}, jtok{tName, name})
+		} else {
+			calls = append(calls, call{K: cStartArr})
+			exp = append(exp, jtok{K: tStartArr})
+		}
+	}
+	calls = append(calls, call{K: cInt, I: 7})
+	exp = append(exp, jtok{tNumber, "7"})
+	for l := D - 1; l >= 0; l-- {
+		// after the deep value every container gets one more member / element
+		if isObj(l) {
+			calls = append(calls, call{K: cName, S: "z"}, call{K: cBool, B: true}, call{K: cEndObj})
+			exp = append(exp, jtok{tName, "z"}, jtok{K: tTrue}, jtok{K: tEndObj})
+		} else {
+			calls = append(calls, call{K: cInt, I: 1}, call{K: cEndArr})
+			exp = append(exp, jtok{tNumber, "1"}, jtok{K: tEndArr})
+		}
+	}
+	var out plenccodec.JSONOutput
+	play(&out, calls)
+	data := out.Done()
+	vrt.ObserveBytes("json", data)
+	toks, ok := jsonParse(data)
+	vrt.Assert("output is one valid JSON document", ok)
+	if ok {
+		vrt.Assert("document equals the call tree", sameTokens(exp, toks))
+	}
 }
